@@ -206,7 +206,7 @@ def ob_values_in_intervals(k, n, timeout):
               canaries=[{"target": "praatio.utilities.utils:getValuesInInterval", "find": "if start <= time and end >= time:", "replace": "if start <= time and end > time:"}] if (k, n) == (2, 2) else [])
 
 
-def ob_values_at_points(k, n, fuzzy, timeout):
+def ob_values_at_points(k, n, fuzzy, timeout, shuffled=False):
     names = ["p%d" % i for i in range(k)] + ["x%d" % i for i in range(n)]
 
     def pre(*rest):
@@ -217,6 +217,10 @@ def ob_values_at_points(k, n, fuzzy, timeout):
         ps, xs = rest[:k], rest[k:]
         tier = PointTier("p", [Point(ps[i], LABELS[i]) for i in range(k)], 0.0, 1024.0)
         data = [(xs[i], "v%d" % i) for i in range(n)]
+        if shuffled:  # the series is handed over out of time order (last first, then every other one)
+            data = data[::-2] + data[-2::-2] if n > 1 else data
+            if sorted(data) == data and n > 1:
+                return "harness: permutation is the identity"
         got = tier.getValuesAtPoints(data, fuzzy)
         if len(got) != k:
             return "one row per point"
@@ -233,7 +237,7 @@ def ob_values_at_points(k, n, fuzzy, timeout):
                     return "fuzzy lookup is not a nearest sample"
         return True
 
-    return Ob("values-at-points-k%d-n%d-%s" % (k, n, "fuzzy" if fuzzy else "exact"), F(*names), body, pre, fmode="real", timeout=timeout, funcs=FUNCS[4:5], bounds="%d points, %d time-sorted distinct samples" % (k, n))
+    return Ob("values-at-points-k%d-n%d-%s%s" % (k, n, "fuzzy" if fuzzy else "exact", "-shuffled" if shuffled else ""), F(*names), body, pre, fmode="real", timeout=timeout, funcs=FUNCS[4:5], bounds="%d points, %d distinct samples given %s" % (k, n, "out of time order" if shuffled else "in time order"))
 
 
 # ------------------------------------------------------------------- interval helpers
@@ -440,6 +444,8 @@ def obligations(tier):
         obs.append(ob_values_in_intervals(2, 2, 200))
         obs.append(ob_values_at_points(2, 3, False, 200))
         obs.append(ob_values_at_points(2, 3, True, 200))
+        obs.append(ob_values_at_points(2, 3, False, 200, shuffled=True))
+        obs.append(ob_values_at_points(2, 3, True, 200, shuffled=True))
         for v in ("plain", "boundary", "time", "percent"):
             obs.append(ob_overlap(v, 120))
         for bk in ("both", "none"):
@@ -462,6 +468,8 @@ def obligations(tier):
         for k, n in ((1, 2), (2, 3), (3, 3), (2, 4)):
             for fz in (False, True):
                 obs.append(ob_values_at_points(k, n, fz, 1200))
+                if n > 1:
+                    obs.append(ob_values_at_points(k, n, fz, 1200, shuffled=True))
         for v in ("plain", "boundary", "time", "percent"):
             obs.append(ob_overlap(v, 600))
         for k in (0, 1, 2, 3):
